@@ -111,6 +111,36 @@ func (m *MS) ApplyWrites(ws []Write) {
 	}
 }
 
+// RouteOf: how block bi travels to the substores (0 direct, 1 through CacheMultiStore()+Write(), 2 through a
+// nested cache wrap).  A function of the block so that replicas, replays and re-executions take the same route
+// (the order in which writes reach an IAVL tree shapes it).
+func RouteOf(bi int, ws []Write) int { return (bi + len(ws)) % 3 }
+
+// ApplyWritesRoute performs the writes on the real multistore along the given route.
+func (m *MS) ApplyWritesRoute(ws []Write, route int) {
+	if route == 0 {
+		m.ApplyWrites(ws)
+		return
+	}
+	top := m.Store.CacheMultiStore()
+	cur := top
+	if route == 2 {
+		cur = top.CacheMultiStore()
+	}
+	for _, w := range ws {
+		kv := cur.GetKVStore(m.Keys[w.Store])
+		if w.Del {
+			_ = kv.Delete(w.K)
+		} else {
+			_ = kv.Set(w.K, w.V)
+		}
+	}
+	if route == 2 {
+		cur.Write()
+	}
+	top.Write()
+}
+
 func RenderEvents(evs []faultdb.Event) string {
 	if len(evs) == 0 {
 		return "-"
